@@ -107,8 +107,14 @@ def run_mapping(
         tmp_dir = tempfile.mkdtemp(
             dir=config['tmp_dir'],
             prefix=f'cell_type_mapper_{timestamp}_')
+        marker_cache_dir = None
     else:
         tmp_dir = None
+        # without a scratch directory the query marker cache is written
+        # to the system's temporary directory; give it a home that the
+        # finally block below removes
+        marker_cache_dir = tempfile.mkdtemp(
+            prefix='cell_type_mapper_marker_cache_')
 
     if output_path is not None:
         output_path = pathlib.Path(output_path)
@@ -147,7 +153,8 @@ def run_mapping(
             config=config,
             tmp_dir=tmp_dir,
             tmp_result_dir=tmp_result_dir,
-            log=log)
+            log=log,
+            marker_cache_dir=marker_cache_dir)
 
         if config['summary_metadata_path'] is not None:
             n_mapped_cells = len(output['results'])
@@ -190,6 +197,7 @@ def run_mapping(
         raise
     finally:
         _clean_up(tmp_dir)
+        _clean_up(marker_cache_dir)
         if tmp_result_dir is not None:
             # also when the run failed; workers that outlived a failed
             # sibling may still be writing there, hence ignore_errors
@@ -226,7 +234,8 @@ def run_mapping(
                 dst_path=hdf5_output_path)
 
 
-def _run_mapping(config, tmp_dir, tmp_result_dir, log):
+def _run_mapping(config, tmp_dir, tmp_result_dir, log,
+                 marker_cache_dir=None):
 
     if log is not None:
         log.env(f"is_torch_available: {is_torch_available()}")
@@ -281,8 +290,10 @@ def _run_mapping(config, tmp_dir, tmp_result_dir, log):
 
     # ========= query marker cache =========
 
+    if tmp_dir is not None:
+        marker_cache_dir = tmp_dir
     query_marker_tmp = pathlib.Path(
-        mkstemp_clean(dir=tmp_dir,
+        mkstemp_clean(dir=marker_cache_dir,
                       prefix='query_marker_',
                       suffix='.h5'))
 
